@@ -14,7 +14,10 @@ E3 = "E3 configuration-space explorer (lib/e3.py + cargo)"
 TRUST_E1 = ("Trusted: the hand-written definition tables (data/*.json), the model's bigint/rational arithmetic "
             "(differentially tested against Python), rustc/std float arithmetic and parsing, fpdec 0.11 as the "
             "definition of Decimal arithmetic. Amounts outside the enumerated alphabets are covered by the "
-            "small-scope argument of DESIGN.md section 3, not by execution.")
+            "small-scope argument of DESIGN.md section 3, not by execution. That one evaluation per input covers every "
+            "history is itself explored: all ordered pairs (c1, c2) of one call alphabet spanning every operation kind and "
+            "type (about 8 400 calls per back-end) are executed, and c2 must observe what it observes from any other "
+            "history (DESIGN.md 9.9); thread interleavings are not enumerated - the library has no synchronisation to hook.")
 
 # id -> (engine, technique, level text, level note, design ref)
 CLAIMED = {
@@ -60,16 +63,19 @@ CLAIMED = {
             "plus zero/negative/out-of-range magnitudes; the expected unit is computed from the statement, not from the "
             "selection code, with the exact magnitude deciding the side of each boundary.",
             TRUST_E1, "5.5"),
-    "C06": (E2, "exhaustive enumeration of a bounded program grammar (all ordered type pairs x 6 operators; all derivation graphs with <= 2 derived types), each program type-checked by rustc against the real crate and compared with the model's closure of the declared derivations",
-            "All 1350 catalogue programs in both back-ends, 150 astronomical and 672 cross-crate programs, and 80 derivation "
-            "graphs (each with a single-unit and a no-reference-unit bystander type) with their complete program sets (or "
-            "whole-crate rejection where derivations collide): 41 578 verdicts (thorough: graphs with three derived types), "
-            "each compared with the verdict and result type predicted from the declarations. Rejected programs carry no "
-            "type ascription, so an unexpected operator with any result type is caught.",
+    "C06": (E2, "exhaustive enumeration of a bounded program grammar (all ordered type pairs x 12 operator forms; all derivation graphs with <= 2 derived types), each program type-checked by rustc against the real crate and compared with the model's closure of the declared derivations",
+            "All ordered type pairs x 12 operator forms (+ - * / == <, and the in-place and remainder forms += -= *= /= % %=, "
+            "which must be rejected wherever they are dimensionally meaningless) over the catalogue in both back-ends, the "
+            "astronomical crate, every cross-crate pair, and 132 derivation graphs (each with a single-unit and a "
+            "no-reference-unit bystander type) with their complete program sets (or whole-crate rejection where derivations "
+            "collide): 83 128 verdicts (thorough: graphs with three derived types), each compared with the verdict and "
+            "result type predicted from the declarations. Rejected programs carry no type ascription, so an unexpected "
+            "operator with any result type is caught.",
             "Trusted: rustc's type checker, the declared derivations in data/catalogue.json, attribution of diagnostics to programs by line. Graphs with more than two derived types or three base types are outside the bound.", "5.6"),
     "C07": (E1, "exhaustive enumeration of the finite unit catalogue against an independently written definition table chained with exact rationals",
             "The domain is finite and is enumerated completely: every unit of every predefined and synthetic quantity in "
-            "both back-ends, every accessor, every pair of SI-prefixed units.",
+            "both back-ends, every accessor, every pair of SI-prefixed units, and every documented unit constant (compile-time "
+            "probe that the constant denotes its own variant).",
             TRUST_E1 + " The tables are definition chains from the standards, not copies of the crate's numbers.", "5.7"),
     "C09": (E1, "exhaustive enumeration of registry sequences and lookup inputs (declared values plus systematically generated near misses) against a model-computed order",
             "Every type's iteration sequence and every lookup over all declared symbols/scales and all generated near "
@@ -77,14 +83,15 @@ CLAIMED = {
             "upper-snake-case constants are probed by compiling one program per unit (E2).",
             TRUST_E1, "5.9"),
     "C11": (E2, "exhaustive enumeration of a bounded grammar of well-formed #[quantity] definitions (all attribute permutations, literal spellings, prefix/doc patterns, kinds); each compiled with the real macro and executed, its registry dump and operator corpus compared with a Python model of the declaration",
-            "~940 (quick) / ~5 600 (thorough) definitions per back-end, every one compiled and executed against the real crate; "
+            "~960 (quick) / ~5 600 (thorough) definitions per back-end - including declarations with 25 and 44 units, scale "
+            "literals with up to 19 significant digits and integer literals beyond 2^53 -, every one compiled and executed against the real crate; "
             "names, symbols, prefixes, scales (exact literal value in the amount type), iteration order incl. ties, "
             "constants, lookups, constructors and all operator families are compared with the model; the permutation "
             "clause is checked on the observed dumps of each permutation group.",
             "Trusted: the Python model of the documented macro behaviour (lib/defgen.py), rustc. Definitions outside the grammar G (more than 3 further units, other literal forms, identifier words of one letter or with digits) are not enumerated.", "5.11"),
     "C12": (E2, "exhaustive application of every defect class to every well-formed base definition of a bounded grammar; each malformed definition expanded / type-checked by rustc, verdict and error location compared with the expectation",
-            "49 concrete defect forms covering every clause of the statement x 26 base definitions (all kinds, sizes, "
-            "basic and derived) = ~1 080 malformed definitions per back-end, plus tests/ui verbatim; each must carry an error "
+            "52 concrete defect forms covering every clause of the statement x 26 base definitions (all kinds, sizes, "
+            "basic and derived) = ~1 140 malformed definitions per back-end, plus tests/ui verbatim; each must carry an error "
             "inside its own line range while the well-formed control definitions compile clean.",
             "Trusted: rustc and the proc-macro diagnostics it reports; line-range attribution. Definitions outside the grammar (more than 3 further units, other identifier conventions) are not enumerated.", "5.12"),
     "C13": (E1, "bounded exhaustive exploration of rate construction, reciprocal, rate*q, q*rate, q/rate and their inverse paths on the real code against an exact-rational reference model",
@@ -93,11 +100,13 @@ CLAIMED = {
             "on every depth-2 path.",
             TRUST_E1, "5.13"),
     "C14": (E1, "exhaustive enumeration of ALL conversion tables up to 3 entries over a 3-unit type (20 440 tables) and breadth-first closure of the temperature table, against a literal transcription of the statement / exact formulas",
-            "Complete table space up to N = 3 (first-match, missing-pair and same-unit clauses bit-exact); temperature "
-            "table explored to depth 3 with exact formulas and path oracles.",
+            "Complete table space up to N = 3 (first-match, missing-pair and same-unit clauses bit-exact), tables with a row "
+            "whose affine map overflows the Decimal representation at every position (a request it does not serve must be "
+            "answered as if it were absent); temperature table explored to depth 3 with exact formulas and path oracles.",
             TRUST_E1, "5.14"),
     "C15": (E1, "exhaustive enumeration of a format-specification grid x units x amounts on the real code against an independent layout model and an exact-rational rounding oracle",
-            "Every combination of flag, fill/alignment, width and precision of the grid for every selected unit and amount, "
+            "Every combination of flag, fill/alignment, width (to 40) and precision (to 20) of the grid, plus 6 (thorough: 22) "
+            "specifications far beyond it (precision / width up to 65535), for every selected unit and amount, "
             "both back-ends; the amount text is judged by parsing it back / by exact rational comparison, the layout by an "
             "independent re-implementation.",
             TRUST_E1 + " str formatting of std is the definition of 'ordinary string formatting rules'; f64/Decimal FromStr are trusted for the parse-back clause.", "5.15"),
@@ -105,10 +114,13 @@ CLAIMED = {
             "Complete over all 25 prefixes, all 256 exponents and all strings of length <= 2 (thorough: <= 3) over an "
             "alphabet that contains every abbreviation character, its case swaps, the micro-sign look-alike and the "
             "characters that agree with an abbreviation character modulo 128 / 256; plus every abbreviation extended by "
-            "one character on either side.",
+            "one character on either side; the prefix iterator consumed from both ends in all 704 schedules of the forms "
+            "F^i B^j F^*, B^i F^j B^* and the alternations.",
             "Trusted: the SI-brochure prefix table in data/catalogue.json.", "5.16"),
     "C17": (E1, "exhaustive enumeration of (unit, amount) states through three serde channels on the real code with a bit-exact round-trip oracle and a collision table for injectivity",
-            "All catalogue units x value and adversarial amount alphabets, both back-ends, three channels; bit-exact oracle.",
+            "All catalogue and synthetic units (incl. identifiers with acronyms and digit boundaries, and unit names shared "
+            "between types) x value and adversarial amount alphabets, both back-ends, three channels; bit-exact oracle; every "
+            "deserialisation call after every other call of the history alphabet.",
             TRUST_E1 + " serde / serde_json are trusted.", "5.17"),
     "C18": (E1, "exhaustive enumeration of operand tuples from totality alphabets (every IEEE class / Decimal range edges) through every operation under catch_unwind; precondition evaluated in exact rationals",
             "Every operation of the library on every unit pair with every combination of special values (f64) or range-edge "
@@ -118,8 +130,11 @@ CLAIMED = {
             TRUST_E1 + " The Decimal precondition is read as in DESIGN.md 5.18 (includes the own-unit product/quotient of the amounts).", "5.18"),
     "C19": (E3, "exhaustive enumeration of the feature-configuration lattice; each configuration built by cargo from the working tree, probed for the items it must expose, and a fixed corpus compared between minimal and full configurations",
             "quick: the 16 feature sets of the statement (each of 14 alone, none, all) at the two opposite corners of "
-            "{std} x {f64, fpdec} x {serde} plus none/all at the other six (44 builds), exposure probe per build, corpus "
-            "of 29 000 output lines per run for all 14 features (f64). thorough: all 380 dependency-closed feature sets "
+            "{std} x {f64, fpdec} x {serde} plus none/all at the other six, plus the 62 further closures of pairs of quantity "
+            "features under rotating opposite corners (168 builds), exposure probe per build, the workspace's downstream "
+            "crate built alone and with serde / std / doc enabled through the dependency, operation corpus (all unit pairs x "
+            "14 amounts incl. the edges of the binary format) for all 14 features in minimal vs full configuration and "
+            "across std / no_std / serde variants (f64). thorough: all 380 dependency-closed feature sets "
             "x 8 variants = 3 040 builds (every requestable configuration is equivalent to one of them), corpus in both "
             "back-ends.",
             "Trusted: cargo's feature resolution; the model's derivation table for the exposure probe. amnt_f32 (32-bit targets) cannot be built here.", "5.19"),
